@@ -1,3 +1,213 @@
 package main
 
-func runRelay(casesPath, tracePath string, shard, shards int) {}
+import (
+	"encoding/json"
+	"fmt"
+	"io"
+	"net"
+	"os"
+	"sync"
+	"time"
+
+	v2 "mosn.io/mosn/pkg/config/v2"
+	_ "mosn.io/mosn/pkg/filter/network/streamproxy"
+	"verif/e2e"
+	"verif/vh"
+)
+
+// gen is the deterministic byte stream of one peer in one case (the reader regenerates it to check content and order).
+type gen struct{ x uint64 }
+
+func newGen(seed int64, idx int, side string) *gen {
+	g := &gen{x: uint64(seed)*0x9E3779B97F4A7C15 ^ uint64(idx)<<20 ^ uint64(side[0])}
+	if g.x == 0 {
+		g.x = 1
+	}
+	return g
+}
+func (g *gen) next() byte {
+	g.x ^= g.x << 13
+	g.x ^= g.x >> 7
+	g.x ^= g.x << 17
+	return byte(g.x >> 32)
+}
+func (g *gen) fill(b []byte) {
+	for i := range b {
+		b[i] = g.next()
+	}
+}
+
+// peerReader drains a connection, counting bytes and checking them against the expected stream.
+type peerReader struct {
+	mu     sync.Mutex
+	cond   *sync.Cond
+	got    int
+	prefix bool
+	done   bool
+	how    string
+}
+
+func startReader(c net.Conn, exp *gen) *peerReader {
+	r := &peerReader{prefix: true}
+	r.cond = sync.NewCond(&r.mu)
+	go func() {
+		buf := make([]byte, 64*1024)
+		for {
+			n, err := c.Read(buf)
+			r.mu.Lock()
+			for i := 0; i < n; i++ {
+				if buf[i] != exp.next() {
+					r.prefix = false
+				}
+			}
+			r.got += n
+			if err != nil {
+				r.done = true
+				if err == io.EOF {
+					r.how = "eof"
+				} else {
+					r.how = "reset"
+				}
+			}
+			r.cond.Broadcast()
+			r.mu.Unlock()
+			if err != nil {
+				return
+			}
+		}
+	}()
+	return r
+}
+
+// waitFor blocks until pred holds or the (generous) deadline passes; returns whether pred held.
+func (r *peerReader) waitFor(pred func() bool, d time.Duration) bool {
+	deadline := time.Now().Add(d)
+	t := time.AfterFunc(d, func() { r.mu.Lock(); r.cond.Broadcast(); r.mu.Unlock() })
+	defer t.Stop()
+	r.mu.Lock()
+	defer r.mu.Unlock()
+	for !pred() {
+		if time.Now().After(deadline) {
+			return false
+		}
+		r.cond.Wait()
+	}
+	return true
+}
+func (r *peerReader) snap() (int, bool, bool, string) {
+	r.mu.Lock()
+	defer r.mu.Unlock()
+	return r.got, r.prefix, r.done, r.how
+}
+
+type relayOp struct {
+	Op   string
+	Side string
+	N    int
+}
+type relayCase struct{ Ops []relayOp }
+
+const relayWait = 40 * time.Second
+
+func runRelay(casesPath, tracePath string, shard, shards int) {
+	tmp, _ := os.MkdirTemp("", "c01-relay-")
+	defer os.RemoveAll(tmp)
+	ul, err := net.Listen("tcp", "127.0.0.1:0")
+	vh.Must(err, "upstream listen")
+	defer ul.Close()
+	accepted := make(chan net.Conn, 16)
+	go func() {
+		for {
+			c, err := ul.Accept()
+			if err != nil {
+				return
+			}
+			accepted <- c
+		}
+	}()
+	laddr := e2e.FreeAddr()
+	lst := v2.Listener{ListenerConfig: v2.ListenerConfig{Name: "c01tcp", AddrConfig: laddr, BindToPort: true, Network: "tcp",
+		FilterChains: []v2.FilterChain{{FilterChainConfig: v2.FilterChainConfig{Filters: []v2.Filter{
+			{Type: "tcp_proxy", Config: map[string]interface{}{"cluster": "tcp_up"}}}}}}}}
+	clusters := e2e.BuildClusters([]e2e.ClusterSpec{{Name: "tcp_up", Hosts: []string{ul.Addr().String()}}})
+	m := e2e.StartMosn(e2e.BuildConfig([]v2.Listener{lst}, clusters, e2e.ScratchLog(tmp)))
+	defer m.Close()
+	vh.Must(e2e.WaitListen(laddr, 10*time.Second), "mosn tcp listener")
+	// WaitListen's probe connection reaches the upstream too: drain it
+	drain := time.After(300 * time.Millisecond)
+loop:
+	for {
+		select {
+		case c := <-accepted:
+			c.Close()
+		case <-drain:
+			break loop
+		}
+	}
+	tr := vh.NewTrace(tracePath)
+	defer tr.Close()
+	idx, n := 0, 0
+	err = vh.ReadCases(casesPath, func(raw json.RawMessage) error {
+		idx++
+		if idx%shards != shard {
+			return nil
+		}
+		var c relayCase
+		if err := json.Unmarshal(raw, &c); err != nil {
+			return err
+		}
+		cc, err := net.DialTimeout("tcp", laddr, 10*time.Second)
+		if err != nil {
+			return fmt.Errorf("dial mosn: %v", err)
+		}
+		var uc net.Conn
+		select {
+		case uc = <-accepted:
+		case <-time.After(relayWait):
+			return fmt.Errorf("upstream connection never arrived")
+		}
+		conns := map[string]net.Conn{"c": cc, "u": uc}
+		wgen := map[string]*gen{"c": newGen(vh.Seed(), idx, "c"), "u": newGen(vh.Seed(), idx, "u")}
+		// the reader on side X checks the stream written by the other side
+		rd := map[string]*peerReader{"c": startReader(cc, newGen(vh.Seed(), idx, "u")), "u": startReader(uc, newGen(vh.Seed(), idx, "c"))}
+		sent := map[string]int{"c": 0, "u": 0}
+		other := map[string]string{"c": "u", "u": "c"}
+		tr.Emit(vh.Ev{"ev": "conn", "case": idx})
+		for _, o := range c.Ops {
+			switch o.Op {
+			case "send":
+				b := make([]byte, o.N)
+				wgen[o.Side].fill(b)
+				if _, err := conns[o.Side].Write(b); err != nil {
+					return fmt.Errorf("write on %s: %v", o.Side, err)
+				}
+				sent[o.Side] += o.N
+				tr.Emit(vh.Ev{"ev": "send", "side": o.Side, "n": o.N})
+			case "sync":
+				ok := rd["u"].waitFor(func() bool { return rd["u"].got >= sent["c"] || rd["u"].done }, relayWait)
+				ok = rd["c"].waitFor(func() bool { return rd["c"].got >= sent["u"] || rd["c"].done }, relayWait) && ok
+				cg, cp, _, _ := rd["c"].snap()
+				ug, up, _, _ := rd["u"].snap()
+				tr.Emit(vh.Ev{"ev": "sync", "ok": ok && cg >= sent["u"] && ug >= sent["c"], "c": cg, "u": ug, "prefix": cp && up})
+			case "close":
+				g, p, _, _ := rd[o.Side].snap()
+				conns[o.Side].Close()
+				tr.Emit(vh.Ev{"ev": "close", "side": o.Side, "got": g, "prefix": p})
+				ob := other[o.Side]
+				fin := rd[ob].waitFor(func() bool { return rd[ob].done }, relayWait)
+				og, op, _, how := rd[ob].snap()
+				if !fin {
+					how = "timeout"
+				}
+				tr.Emit(vh.Ev{"ev": "eof", "side": ob, "got": og, "prefix": op, "how": how})
+				conns[ob].Close()
+			}
+		}
+		cc.Close()
+		uc.Close()
+		n++
+		return nil
+	})
+	vh.Must(err, "relay cases")
+	fmt.Printf("relay cases=%d events=%d\n", n, tr.Len())
+}
